@@ -711,9 +711,9 @@ func (e *CEnv) selectField(base CVal, name string, x *CExpr) CVal {
 				}
 			}
 		}
-		// ghost field
-		if strings.HasPrefix(name, "$") {
-			return e.ghostField(bv, name)
+		// ghost field (declared with ghostfield; written x.gh_name)
+		if strings.HasPrefix(name, "gh_") {
+			return e.ghostField(bv, "$"+strings.TrimPrefix(name, "gh_"))
 		}
 		e.fail("no field %s in %s", name, bv.Elem)
 	case StructV:
